@@ -5,6 +5,7 @@
 //! exit 2: inconclusive (generator health, watchdog, usage)
 
 mod brokersim;
+mod clientstate;
 mod codec;
 mod commitlog;
 mod engine;
